@@ -392,6 +392,9 @@ void generate_math_utility_builtins(StringBuilder *sb) {
     sb_append(sb, "}\n\n");
 
     /* String operations */
+    sb_append(sb, "/* str_length is an int: strlen's size_t made (- (str_length s) 7) unsigned and\n");
+    sb_append(sb, " * 'i < strlen(s)' a -Werror=sign-compare failure */\n");
+    sb_append(sb, "static int64_t nl_str_length(const char* s) { return (int64_t)strlen(s); }\n\n");
     sb_append(sb, "/* String concatenation - use strnlen for safety */\n");
     sb_append(sb, "static const char* nl_str_concat(const char* s1, const char* s2) {\n");
     sb_append(sb, "    /* Safety: Bound string scan to 1MB */\n");
